@@ -110,6 +110,52 @@ UNITS.append(dict(name="c12_user_atlas_clear", template="C12/atlas_clear.c", mod
                                        (r"for \(auto anchor : anchors_\)\s*newChart\(anchor\);", "for (unsigned a_ = 0; a_ < anchors_n; ++a_) NEW_CHART();", 0), (r"ConstrainedStateSpace::clear\(\);", "", 0)])],
                   canaries=[dict(name="neighbours_kept", where="body:clear", rx=r"nn_n = 0;", repl="")]))
 
+ATLF = "src/ompl/base/spaces/constraint/src/AtlasStateSpace.cpp"
+NC_RULES = [
+    (r"AtlasChart \*chart;", "ChartRef chart;", 0), (r"StateType \*cstate = nullptr;", "int cstate = 0;", 0),
+    (r"try\s*\{\s*cstate = cloneState\(state\)->as<StateType>\(\);\s*chart = new AtlasChart\(this, cstate\);\s*\}\s*catch \(ompl::Exception &e\)\s*\{.*?if \(cstate != nullptr\)\s*freeState\(cstate\);\s*return nullptr;\s*\}",
+     "cstate = CLONE_STATE(); chart = NEW_CHART(cstate); if (chart == NULLREF) { if (cstate != 0) FREE_STATE(cstate); return NULLREF; }", 0, __import__("re").S),
+    (r"std::vector<NNElement> nearbyCharts;\s*chartNN_\.nearestR\(std::make_pair\(cstate, 0\), 2 \* rho_s_, nearbyCharts\);", "unsigned nearby[NCH]; unsigned nearby_n = NN_nearestR(nearby);", 0),
+    (r"for \(auto &&near : nearbyCharts\)\s*\{", "for (unsigned k_ = 0; k_ < nearby_n; ++k_) { unsigned near_second = nearby[k_];", 0), (r"near\.second", "near_second", 0),
+    (r"AtlasChart \*other = charts_\[", "ChartRef other = charts_[", 0), (r"AtlasChart::generateHalfspace\(", "GEN_HALFSPACE(", 0),
+    (r"chartPDF_\.update\(chartPDF_\.getElements\(\)\[([^\]]+)\], ", r"PDF_UPDATE(\1, ", 0), (r"biasFunction_\(", "BIAS(", 0),
+    (r"chartNN_\.add\(std::make_pair\(cstate, charts_\.size\(\)\)\);", "NN_ADD(cstate, charts__size);", 0), (r"charts_\.push_back\(chart\);", "charts_[charts__size++] = chart;", 0),
+    (r"chartPDF_\.add\(chart, ", "PDF_ADD(chart, ", 0),
+]
+UNITS.append(dict(name="c12_user_atlas_newChart", template="C12/atlas_newchart.c", mode="plain", entry="h_atlas_newChart", flags=["--bounds-check", "--pointer-check", "--unsigned-overflow-check"], unwind=8, level="bounded", bound="<= 3 existing charts",
+                  backend="minisat", timeout=300, functions=["ompl::base::AtlasStateSpace::newChart"],
+                  sources=[dict(name="newChart", file=ATLF, sig=r"ompl::base::AtlasChart \*ompl::base::AtlasStateSpace::newChart\(const StateType \*state\) const", rules=NC_RULES, loops={"allow_uncontracted": True})],
+                  canaries=[dict(name="neighbour_gets_the_new_charts_bias", where="body:newChart", rx=r"BIAS\(other\)", repl="BIAS(chart)")]))
+
+# ---------------------------------------------------------------- EST: an owner of a PDF (anchor src/ompl/geometric/planners/est/src/EST.cpp)
+ESTF = "src/ompl/geometric/planners/est/src/EST.cpp"
+EST_RULES = [
+    (r"for \(auto neighbor : neighbors\)\s*\{", "for (unsigned k_ = 0; k_ < NB_n; ++k_) { MotionRef neighbor = NB[k_];", 0),
+    (r"PDF<Motion \*>::Element \*elem = neighbor->element;", "ElemRef elem = M_element[neighbor];", 0), (r"double w = pdf_\.getWeight\(elem\);", "unsigned w = PDF_getWeight(elem);", 0),
+    (r"pdf_\.update\(elem, w / \(w \+ 1\.\)\);", "PDF_update(elem, WNEXT(w));", 0),
+    (r"motion->element = pdf_\.add\(motion, 1\. / \(neighbors\.size\(\) \+ 1\.\)\);", "M_element[motion] = PDF_add(motion, NB_n);", 0),
+    (r"motions_\.push_back\(motion\);", "motions_n++; last_pushed = motion;", 0), (r"nn_->add\(motion\);", "nn_n++; last_nn = motion;", 0),
+    # solve() regions
+    (r"while \(const base::State \*st = pis_\.nextStart\(\)\)", "while ((st = NEXT_START()) != 0)", 0),
+    (r"auto \*motion = new Motion\(si_\);", "MotionRef motion = NEW_MOTION();", 0), (r"si_->copyState\(motion->state, st\);", "M_content[motion] = st;", 0), (r"si_->copyState\(motion->state, xstate\);", "M_content[motion] = xstate_content;", 0),
+    (r"nn_->nearestR\((\w+), (\w+), neighbors\);", r"NEARESTR(M_content[\1], \2);", 0), (r"addMotion\(motion, neighbors\);", "ADD_MOTION(motion);", 0),
+    (r"Motion \*existing = pdf_\.sample\(rng_\.uniform01\(\)\);", "MotionRef existing = PDF_SAMPLE();", 0), (r"assert\(existing\);", "", 0),
+    (r"rng_\.uniform01\(\) < goalBias_ && goal_s->canSample\(\)", "nondet_bool()", 0), (r"goal_s->sampleGoal\(xstate\);", "xstate_content = nondet_int();", 0),
+    (r"xmotion->state = xstate;", "M_content[xmotion] = xstate_content;", 0), (r"!sampler_->sampleNear\(xstate, existing->state, maxDistance_\)", "!SAMPLE_NEAR()", 0),
+    (r"!neighbors\.empty\(\)\s*", "neighbors_n != 0", 0), (r"double p = 1\.0 - \(1\.0 / neighbors\.size\(\)\);", "", 0), (r"rng_\.uniform01\(\) < p", "nondet_bool()", 0),
+    (r"si_->checkMotion\(existing->state, xstate\)", "CHECK_MOTION(existing)", 0), (r"motion->parent = existing;", "M_parent[motion] = existing;", 0),
+]
+EST_SRC = [
+    dict(name="addMotion", file=ESTF, sig=r"void ompl::geometric::EST::addMotion\(Motion \*motion, const std::vector<Motion \*> &neighbors\)", rules=EST_RULES, loops={"allow_uncontracted": True}),
+    dict(name="solve_starts", file=ESTF, begin=r"while \(const base::State \*st = pis_\.nextStart\(\)\)", end=r"if \(motions_\.empty\(\)\)", rules=EST_RULES, loops={"allow_uncontracted": True}),
+    dict(name="solve_expand", file=ESTF, begin=r"Motion \*existing = pdf_\.sample\(rng_\.uniform01\(\)\);", end=r"double dist = 0\.0;", rules=EST_RULES + [(r"\Z", "}", 0)], loops={"allow_uncontracted": True}),
+]
+for _h, _fn, _needs, _can in (("est_addMotion", "ompl::geometric::EST::addMotion", ["addMotion"], [dict(name="handle_of_new_motion_not_stored", where="body:addMotion", rx=r"M_element\[motion\] = PDF_add", repl="PDF_add")]),
+                              ("est_solve_starts", "ompl::geometric::EST::solve (start states)", ["solve_starts"], [dict(name="start_states_without_neighbourhood", where="body:solve_starts", rx=r"NEARESTR\(M_content\[motion\], nbrhoodRadius_\);", repl="")]),
+                              ("est_solve_expand", "ompl::geometric::EST::solve (expansion step)", ["solve_expand"], [dict(name="neighbourhood_of_the_parent", where="body:solve_expand", rx=r"M_content\[xmotion\] = xstate_content;", repl="M_content[xmotion] = M_content[existing];")])):
+    UNITS.append(dict(name="c12_user_" + _h, template="C12/est_pdf.c", mode="plain", entry="h_" + _h, sources=EST_SRC, needs=_needs, flags=["--bounds-check", "--pointer-check", "--unsigned-overflow-check"], unwind=6, level="bounded",
+                      bound="<= 3 neighbours / <= 3 start states / one expansion step", backend="minisat", timeout=300, functions=[_fn], canaries=_can))
+
 # ---------------------------------------------------------------- KPIECE's Discretization (anchor of this property): cell selection follows the CURRENT cell weights --
 # every change of a cell's score / coverage / selection count is re-sorted into the queues before the next selection (units of C13)
 import copy as _copy, importlib.util as _ilu, os as _os
